@@ -460,6 +460,31 @@ func buildCatalogue(c *Ctx) []buildCase {
 			f.Services = []*spec.Service{echoSvc(pkg, "MockedService", "KReq", "KResp", 2, "/k")}
 		})
 	}})
+	// 8b. mock option x declaration scopes x examples: the same short message name (and the same field
+	// names) in several scopes, every one carrying field examples
+	out = append(out, buildCase{ID: "mock/same-short-name-in-scopes-with-examples", Mock: true, Files: func(pkg, goName string) []*spec.File {
+		return oneFile(pkg, goName, func(f *spec.File) {
+			ex := func(v ...string) func(a *spec.Ann) { return func(a *spec.Ann) { a.Examples = v } }
+			item := func(e ...string) *spec.Message {
+				return &spec.Message{Name: "Item", Fields: []*spec.Field{spec.F("id", 1, spec.String).With(ex(e...)), spec.F("label", 2, spec.String).With(ex("l-" + e[0]))}}
+			}
+			f.Messages = []*spec.Message{item("top-1"),
+				{Name: "Order", Nested: []*spec.Message{item("order-1", "order-2")}, Fields: []*spec.Field{spec.FM("item", 1, "."+pkg+".Order.Item"), spec.F("id", 2, spec.String).With(ex("o-1"))}},
+				{Name: "KReq", Fields: []*spec.Field{spec.F("id", 1, spec.String).With(ex("req-1"))}},
+				{Name: "KResp", Nested: []*spec.Message{item("resp-1")}, Fields: []*spec.Field{spec.FM("mine", 1, "."+pkg+".KResp.Item"), spec.FM("top", 2, "."+pkg+".Item"), spec.FM("order", 3, "."+pkg+".Order"), spec.F("id", 4, spec.String).With(ex("r-1", "r-2"))}}}
+			f.Services = []*spec.Service{echoSvc(pkg, "MockedService", "KReq", "KResp", 2, "/k")}
+		})
+	}})
+	out = append(out, buildCase{ID: "mock/two-files-one-package-with-examples", Mock: true, Files: func(pkg, goName string) []*spec.File {
+		ex := func(v ...string) func(a *spec.Ann) { return func(a *spec.Ann) { a.Examples = v } }
+		types := &spec.File{Path: strings.ReplaceAll(pkg, ".", "/") + "/types.proto", Package: pkg, GoImport: "lab/gen/" + goName, GoName: goName}
+		types.Messages = []*spec.Message{{Name: "Product", Fields: []*spec.Field{spec.F("title", 1, spec.String).With(ex("t-1", "t-2")), spec.F("price", 2, spec.Double).With(ex("9.5"))}},
+			{Name: "Audit", Fields: []*spec.Field{spec.F("title", 1, spec.String).With(ex("a-1")), spec.F("actor", 2, spec.String).With(ex("root"))}}}
+		svc := &spec.File{Path: strings.ReplaceAll(pkg, ".", "/") + "/service.proto", Package: pkg, GoImport: "lab/gen/" + goName, GoName: goName, Imports: []string{types.Path}}
+		svc.Messages = []*spec.Message{{Name: "KReq", Fields: []*spec.Field{spec.F("id", 1, spec.String)}}, {Name: "KResp", Fields: []*spec.Field{spec.FM("product", 1, "."+pkg+".Product"), spec.F("title", 2, spec.String).With(ex("k-1"))}}}
+		svc.Services = []*spec.Service{echoSvc(pkg, "MockedService", "KReq", "KResp", 2, "/k")}
+		return []*spec.File{types, svc}
+	}})
 	return out
 }
 
